@@ -168,6 +168,12 @@ where
         let s = (edge_pairs(sh, false), gen::boundary(sh)).prop_map(|((a, b), c)| (a, b, c));
         ctx.run("widening_carrying_edge", ctx.budget(q(QUICK / 2), FACTOR), s, widening_carrying::<U>);
     }));
+    jobs.push(Job::new(job_name::<U>("sweep"), move |ctx| {
+        let full = ctx.tier() == vlib::Tier::Thorough;
+        ctx.enumerate("mul_u", "position pairs for every bit position (2^k * 2^(W-1-k) etc.)", position_pairs(sh, full), mul::<U>);
+        ctx.enumerate("mul_i", "position pairs for every bit position (products exactly MIN, 2^(W-1), ...)", position_pairs(sh, full), mul::<I>);
+        ctx.enumerate("widening_u", "position pairs for every bit position, carry word all ones", position_pairs(sh, full).map(move |(a, b)| (a, b, Pat(vec![0xffu8; sh.bytes]))), widening_carrying::<U>);
+    }));
     jobs.push(Job::new(job_name::<U>("u/chain2"), move |ctx| {
         let s = (gen::pattern_pair(sh), gen::pattern_pair(sh)).prop_map(|((a, b), (c, d))| (a, b, c, d));
         ctx.run("chain2", ctx.budget(q(QUICK / 4), FACTOR), s, chain2::<U>);
@@ -219,7 +225,7 @@ fn main() {
     runner::main(
         Property {
             id: "C02",
-            rule: "Operand pairs come from (1) the structured W-bit pattern generators (uniform, digit-aligned bit runs, extreme digits, boundary values, derived second operand), (2) edge-of-overflow construction b = floor((B+delta)/|a|)+eps for B in {2^W-1, 2^(W-1)-1, 2^(W-1)}, delta, eps in {-1,0,1}, all sign combinations, (3) positional operands: one non-zero digit each at positions i, j with i+j in {N-2, N-1, N}. Every case checks overflowing/checked/wrapping/saturating/strict/unchecked mul against the exact product in an independent reference integer; unsigned cases also check widening_mul, carrying_mul and a 2x2-word product chained from carrying_mul/carrying_add. NON-TRIVIAL: both operands have >= 2 significant digits (N >= 2), or the product's magnitude lies within one bit of the representable bound, or (widening) the high half is non-zero. distinct = distinct (profile, job, inputs) among non-trivial cases by 64-bit hash. 8-bit configuration enumerated completely.",
+            rule: "Operand pairs come from (1) the structured W-bit pattern generators (uniform, digit-aligned bit runs, extreme digits, boundary values, derived second operand), (2) edge-of-overflow construction b = floor((B+delta)/|a|)+eps for B in {2^W-1, 2^(W-1)-1, 2^(W-1)}, delta, eps in {-1,0,1}, all sign combinations, (3) positional operands: one non-zero digit each at positions i, j with i+j in {N-2, N-1, N}. Every case checks overflowing/checked/wrapping/saturating/strict/unchecked mul against the exact product in an independent reference integer; unsigned cases also check widening_mul, carrying_mul and a 2x2-word product chained from carrying_mul/carrying_add. NON-TRIVIAL: both operands have >= 2 significant digits (N >= 2), or the product's magnitude lies within one bit of the representable bound, or (widening) the high half is non-zero. distinct = distinct (profile, job, inputs) among non-trivial cases by 64-bit hash. 8-bit configuration enumerated completely. A deterministic SWEEP additionally enumerates, per configuration, position-specific inputs (2^k - 1, 2^k, 2^k + 1 with their negations and complements; carry / borrow chains and power-of-two products ending at every bit position k; every shift / rotate amount; every bit index; every float exponent) - all positions on types up to 1088 bits, a sparse selection of a few hundred positions on wider types in the quick tier, all positions in the thorough tier.",
             assumptions: &[
                 "digits()/from_digits()/to_bits()/from_bits() are the trusted observation channel",
                 "reference integer Z (schoolbook multiply through u64, self-tested against i128 and python vectors on every run)",
